@@ -217,6 +217,21 @@ Section Sys.
     - intros unsigned' E. rewrite Hs in E. injection E as <-. exact H3.
   Qed.
 
+  (* overlapping calls do not enter one another's attestations: what call i submits is computed from
+     call i's own duty, the answers call i's environment gave, and the validators of that duty that
+     passed the filter -- whatever the other calls of the history are and however they interleave *)
+  Lemma submitted_own_duty sch i atts :
+    In (Submit i atts) (g_trace (exec spe rs sch init)) ->
+    exists r a avail unsigned claimed,
+      nth_error rs i = Some r /\ s_fetch (r_script r) = Some a /\ s_accounts (r_script r) = Some avail /\
+      s_sign (r_script r) = Some unsigned /\ incl claimed (d_vals (r_duty r)) /\
+      atts = attestations (r_duty r) a (sign_args (r_duty r) claimed avail) unsigned.
+  Proof.
+    intro Hin. pose proof (proj1 (Forall_forall _ _) (trace_evinv spe rs sch) _ Hin) as H.
+    cbn [evinv] in H. destruct H as [r [a [avail [claimed [unsigned [Hr [Hf [Hv [Ha [Hs [Hc [Hatts _]]]]]]]]]]]].
+    exists r, a, avail, unsigned, claimed. repeat split; assumption.
+  Qed.
+
   Lemma signreq_assignment sch q :
     In (SignReq q) (g_trace (exec spe rs sch init)) ->
     exists r a, nth_error rs (sr_run q) = Some r /\ s_fetch (r_script r) = Some a /\
